@@ -374,11 +374,65 @@ def scan_case(run, seed, idx, sparseframe):
         shutil.rmtree(d, ignore_errors=True)
 
 
+def concurrent_callers(run, seed, idx, mods):
+    """several Python threads label their own private frames at the same time (the sparse wrappers are declared threadsafe
+    in the f2py interface, i.e. they run without the GIL; a thread pool over the frames of a scan is ordinary use).  Each
+    result must be the one the same call gives alone: nothing of one labelling may depend on another one in progress."""
+    from concurrent.futures import ThreadPoolExecutor
+    cImageD11, sparseframe, labelimage = mods
+    r = rng(seed, "C11", "concurrent", idx)
+    shape = [(64, 64), (128, 96), (512, 512)][idx % 3]
+    masks = []
+    for k in range(3):
+        m = r.random(shape) < float(r.choice([0.35, 0.42, 0.5]))
+        # U and comb shapes: provisional labels that have to be joined late
+        m[4:shape[0] - 4, 5] = m[4:shape[0] - 4, shape[1] - 6] = True
+        m[shape[0] - 5, 5:shape[1] - 5] = True
+        m[4:shape[0] // 2, 6:shape[1] - 6:3] = (np.arange(6, shape[1] - 6, 3) % 2 == 0)[None, :] | m[4:shape[0] // 2, 6:shape[1] - 6:3]
+        masks.append(m)
+    desc = dict(index=idx, route="concurrent-callers", shape=shape)
+    run.case(("concurrent", shape, idx), nontrivial=True, sample=desc if idx < 2 else None)
+    frames, alone = [], []
+    for m in masks:
+        rows, cols = np.nonzero(m)
+        v = np.ones(len(rows), np.float32)
+        frames.append((rows.astype(np.uint16), cols.astype(np.uint16), v))
+        lab = np.zeros(len(rows), np.int32)
+        nl = cImageD11.sparse_connectedpixels(v, frames[-1][0], frames[-1][1], 0.5, lab)
+        dense = np.zeros(shape, np.int64)
+        dense[rows, cols] = lab
+        check_labels(run, lambda key, what: run.violation(key, what, desc), "sparse_connectedpixels(alone)", dense, nl, m, True)
+        alone.append((nl, lab.copy()))
+    nthreads, ncalls = 4, (40 if shape[0] >= 512 else 150) if run.tier == "quick" else 1500
+
+    def work(t):
+        bad = 0
+        # threads 0/1 label copies of the SAME frame (equal provisional label numbers), the others their own
+        k = 0 if t < 2 else (t - 1) % len(frames)
+        row, col, v = [a.copy() for a in frames[k]]
+        for _ in range(ncalls):
+            lab = np.zeros(len(v), np.int32)
+            nl = cImageD11.sparse_connectedpixels(v, row, col, 0.5, lab)
+            if nl != alone[k][0] or not np.array_equal(lab, alone[k][1]):
+                bad += 1
+        return k, bad
+    with ThreadPoolExecutor(max_workers=nthreads) as ex:
+        results = list(ex.map(work, range(nthreads)))
+    run.count("concurrent_caller_runs", nthreads * ncalls)
+    for k, bad in results:
+        if bad:
+            run.violation("sparse_connectedpixels:concurrent-callers", "%d of %d labellings of a private frame made while other Python "
+                          "threads were labelling theirs differ from the labelling the same call gives alone" % (bad, ncalls), desc)
+            break
+
+
 def check(run, replay=None):
     from ImageD11 import cImageD11, sparseframe, labelimage
     mods = (cImageD11, sparseframe, labelimage)
     if replay is not None:
-        if replay["case"].get("route") == "SparseScan.cplabel":
+        if replay["case"].get("route") == "concurrent-callers":
+            concurrent_callers(run, replay["seed"], replay["case"]["index"], mods)
+        elif replay["case"].get("route") == "SparseScan.cplabel":
             scan_case(run, replay["seed"], replay["case"]["index"], sparseframe)
         else:
             one_case(run, replay["seed"], replay["case"]["index"], mods,
@@ -390,6 +444,9 @@ def check(run, replay=None):
         one_case(run, run.seed, idx, mods)
     for idx in range(12 if run.tier == "quick" else 300):
         scan_case(run, run.seed, idx, sparseframe)
+    for idx in range(6 if run.tier == "quick" else 30):
+        concurrent_callers(run, run.seed, idx, mods)
+    run.require_counter("concurrent_caller_runs", 1000)
     run.require_counter("sparsescan_runs", 10)
     run.require_counter("scan_frames_stored_none_above", 3)
     run.extra["thread_counts"] = list(THREADS)
